@@ -11,10 +11,12 @@ Definition symbol_at (p : profile) (st : symtab) (address : Z) : outcome (option
 
 (* fourth component (round 5, second pass): the same query answered by the function COMPILED from the Rust source of
    SymbolFile::fill_symbol (Gen/C11Src.v), with the fuel of Prims.src_fuel; the glue prints it as the D field and flags a
-   difference from the hand-written model (proved impossible on the unchanged tree: c11_compiled_fill_symbol) *)
+   difference from the hand-written model (proved impossible on the unchanged tree: c11_compiled_fill_symbol); fifth
+   component: front-end S answered by the compiled fill_source_line_info / Symbolizer::fill_symbol on a fresh StackFrame
+   (every module that has symbols has the table [st], so the same fuel covers it) *)
 Fixpoint run_queries (p : profile) (st : symtab) (mbase : Z) (tbl : list (range * Z))
                      (mods : list module) (qs : list Z)
-  : outcome (list (sym_out * option (Z * sym_out) * option Z * outcome sym_out)) :=
+  : outcome (list (sym_out * option (Z * sym_out) * option Z * outcome sym_out * outcome sframe)) :=
   match qs with
   | [] => Ret []
   | q :: t =>
@@ -22,7 +24,8 @@ Fixpoint run_queries (p : profile) (st : symtab) (mbase : Z) (tbl : list (range 
       do b <- frame_of p tbl mods q;
       do g <- symbol_at p st q;
       do rest <- run_queries p st mbase tbl mods t;
-      Ret ((a, b, g, src_fill_symbol p (src_fuel st) st mbase q) :: rest)
+      Ret ((a, b, g, src_fill_symbol p (src_fuel st) st mbase q,
+            src_fill_source_line_info p (src_fuel st) (mk_sframe q None empty_out) (tbl, mods)) :: rest)
   end.
 
 (* module 0 is (mbase, msize, symbols); the further modules carry a flag: 0 = unknown to the supplier, 1 = the same symbol
@@ -32,7 +35,7 @@ Fixpoint run_queries (p : profile) (st : symtab) (mbase : Z) (tbl : list (range 
 Definition sup_of_flag (st : symtab) (f : Z) : sup :=
   if f =? 1 then SymOk st else if f =? 2 then SymCorrupt else SymMissing.
 Definition case_result : Type :=
-  (list (sym_out * option (Z * sym_out) * option Z * outcome sym_out) * (nat * nat * list (option (bool * bool))))%type.
+  (list (sym_out * option (Z * sym_out) * option Z * outcome sym_out * outcome sframe) * (nat * nat * list (option (bool * bool))))%type.
 Definition run_case_st (st : symtab) (mbase msize : Z) (extra : list (Z * Z * Z)) (qs : list Z) : outcome case_result :=
   let smods : list smodule :=
     (mbase, msize, SymOk st) :: map (fun m : Z * Z * Z => (fst m, sup_of_flag st (snd m))) extra in
